@@ -130,7 +130,7 @@ def _gen_step(s, kind=None):
     elif kind == "cover":
         st["params"] = dict(reveal_single=s.random() < 0.5)
     elif kind in ("split", "random_holdout"):
-        st["params"] = dict(fraction=s.choice([0.0, 0.1, 0.3, 0.5, 0.7, 1.0, 1.0 / 3.0, 0.25, 0.75, 2.0 / 3.0, 0.9, 0.99, 0.01, 1e-9]))
+        st["params"] = dict(fraction=s.choice([0.0, 0.1, 0.3, 0.5, 0.7, 1.0, 1.0 / 3.0, 0.25, 0.75, 2.0 / 3.0, 0.9, 0.99, 0.01, 1e-9, 1e-17, 1e-300, 5e-324, 5.0 / 11.0]))
     else:
         st["params"] = {}
     return st
